@@ -62,3 +62,21 @@ def guard(fn):
             return [Clause(fn.__name__, "undecided", "", "%s: %s" % (type(e).__name__, e))]
     run.__name__ = fn.__name__
     return run
+
+
+def bounded(script, mode, name, note, params=None):
+    """a Tier-B (bounded) check: the real code run by the objrun engine over a finite grid of shapes;
+    reported under coverage.bounded_checks, never counted as discharged"""
+    def run(ctx):
+        from vt import replay as R
+        os.environ["VERIF_TIER"] = getattr(ctx, "tier", "quick") if ctx is not None else "quick"
+        t0 = time.time()
+        r = R.run_script(script, mode, params or {}, getattr(ctx, "seed", 0) if ctx is not None else 0, timeout=1500)
+        dt = time.time() - t0
+        if r.get("reproduced"):
+            return [Clause(name, "refuted", "objrun", "%s -- %s" % (note, r.get("what", "")), witness={k: r.get(k) for k in ("shape", "machine", "iterations", "observed", "expected", "phase", "partitions", "scheduler") if k in r}, secs=dt)]
+        if r.get("harness_error") or r.get("error") or "cases" not in r:
+            return [Clause(name, "undecided", "objrun", "harness problem: %s" % (r.get("what") or r.get("error") or r)[:600], secs=dt)]
+        return [Clause(name, "discharged", "objrun(bounded)", "%s [%d cases on the shape grid, exact rationals / stated tolerance]" % (note, r.get("cases", 0)), secs=dt)]
+    run.__name__ = "bounded_" + mode
+    return run
